@@ -18,6 +18,14 @@ def eval_call(E, node, st):
     if isinstance(f, ast.Name):
         if f.id == "old" and E.spec_mode:
             return _old(E, node, st)
+        if f.id == "fullmatch" and E.spec_mode:
+            # fullmatch("regex", s): the whole string matches (no `$` leniency) -- specification only
+            from .pymodel import _rx_seq
+            pat = node.args[0].value
+            rx = _rx_seq(pat)
+            if rx is None:
+                raise SpecError("regex %r" % pat)
+            return E.bind(E.eval(node.args[1], st), lambda s, v: [Out("ok", s, vbool(z3.InRe(v.t, rx)))])
         if f.id == "fresh" and E.spec_mode:
             # fresh(x): x was allocated after the entry state (of the call / of the function)
             return E.bind(E.eval(node.args[0], st), lambda s, v: [Out("ok", s, vbool(v.t > E.frame.old.alloc))])
@@ -237,7 +245,7 @@ def opaque_call(E, st, fn, args, kwargs):
 def call_spec(E, st, name, args, kwargs):
     if name in E.R.ufs:
         u = E.R.ufs[name]
-        f = E.uf_decl("uf_" + name, *([sort_of(k) for k in u.argkinds] + [sort_of(u.reskind)]))
+        f = E.uf_decl(name if u.raw else "uf_" + name, *([sort_of(k) for k in u.argkinds] + [sort_of(u.reskind)]))
         ts = []
         for a, k in zip(args, u.argkinds):
             ts.append(_arg_term(E, st, a, k))
@@ -308,7 +316,7 @@ def call_closure(E, st, d, args, kwargs):
         outs = E.exec_block(body, s)
     finally:
         E.frames = saved
-    return _finish_call(st, outs)
+    return _finish_call(st, outs, E)
 
 
 def _sub_frame(fr):
@@ -319,7 +327,17 @@ def _sub_frame(fr):
     return f
 
 
-def _finish_call(caller_st, outs):
+def _finish_call(caller_st, outs, E=None):
+    res = _finish_call0(caller_st, outs)
+    if E is not None and not E.spec_mode:
+        # outcomes that return None are merged (validators, setters): one state instead of one per path
+        res = E.merge_outs([Out("ok", o.st) if (o.tag == "ok" and o.val is not None and o.val.kind.tag == "none") else o for o in res],
+                           len(caller_st.pc))
+        res = [Out("ok", o.st, VNONE) if (o.tag == "ok" and o.val is None) else o for o in res]
+    return res
+
+
+def _finish_call0(caller_st, outs):
     res = []
     for o in outs:
         s = o.st.copy()
@@ -505,7 +523,7 @@ def inline(E, st, mi, ci, fn, selfv, args, kwargs):
         outs = E.exec_block(frontend.body_without_docstring(fn), s)
     finally:
         E.frames = saved
-    return _finish_call(st, outs)
+    return _finish_call(st, outs, E)
 
 
 # --------------------------------------------------------------------------- contracts at call sites
@@ -628,10 +646,8 @@ def havoc(E, st, locs, env, old_st):
                 s.pc = s.pc + (z3.And(tv >= 0, tv < len(ks)),)
                 s.heap[tk] = z3.Store(E.arr(s, tk, z3.IntSort(), z3.IntSort()), r, tv)
             for k in ks:
-                if k.tag == "none":
-                    continue
-                key = E._fkey(node.attr, k)
-                s.heap[key] = z3.Store(E.arr(s, key, z3.IntSort(), sort_of(k)), r, fresh_term(k, "hv_" + node.attr))
+                for key, srt in E.field_keys(node.attr, k):
+                    s.heap[key] = z3.Store(E.arr(s, key, z3.IntSort(), srt), r, z3.Const(fresh_name("hv_" + node.attr), srt))
         elif isinstance(node, ast.Call) and isinstance(node.func, ast.Name) and node.func.id == "items":
             base = spec_value(E, node.args[0], st, env, old_st)
             _havoc_items(E, s, base)
@@ -681,10 +697,8 @@ def _havoc_field_all(E, s, fname):
                 tk = "T|%s|%s" % (fname, fk)
                 s.heap[tk] = z3.Array(fresh_name(tk), z3.IntSort(), z3.IntSort())
             for k in ks:
-                if k.tag == "none":
-                    continue
-                key = E._fkey(fname, k)
-                s.heap[key] = z3.Array(fresh_name(key), z3.IntSort(), sort_of(k))
+                for key, srt in E.field_keys(fname, k):
+                    s.heap[key] = z3.Array(fresh_name(key), z3.IntSort(), srt)
             found = True
     if not found:
         raise SpecError("modifies ANY.%s: no such field" % fname)
